@@ -201,6 +201,7 @@ impl IrSpanned<StmtCompiled> {
                 bc.write_instr::<InstrReturn>(span, slot);
             });
         }
+        bc.after_return();
     }
 
     fn write_bc_inner(&self, compiler: &StmtCompileContext, bc: &mut BcWriter) {
